@@ -145,6 +145,16 @@ func (C18) Events(env world.Env, mm mc.Model) []string {
 	}
 	for _, x := range c18Who {
 		add("Delete:%s:%s:%d", x, others(x)[0], 0) // never-sent identity; also the key shape of a block record
+		// times at which nothing was received but whose digits begin (or extend) those of a received time
+		for _, id := range world.SortedKeys(m.Inbox[x]) {
+			ft := strings.Split(id, "|")
+			t, _ := strconv.ParseInt(ft[1], 10, 64)
+			for _, u := range []int64{t / 10, t / 1_000_000, t * 10, 1} {
+				if _, real := m.Inbox[x][ft[0]+"|"+strconv.FormatInt(u, 10)]; !real {
+					add("Delete:%s:%s:%d", x, ft[0], u)
+				}
+			}
+		}
 	}
 	for _, y := range others(m.NameOwner) {
 		add("TransferName:%s:%s", m.NameOwner, y)
